@@ -35,7 +35,7 @@ def cases(draw, tier="quick"):
     env = draw(gen.envs(max_params=1, max_vec=10 if big else 6))
     polyish = draw(st.integers(0, 9)) < 7
     if polyish:
-        cfg = gen.Cfg(funcs=[], general_pow=False, norms=False, params=draw(st.integers(0, 5)) == 0,
+        cfg = gen.Cfg(funcs=[], general_pow=False, norms=False, params=draw(st.integers(0, 1)) == 0,
                       pow_exps=[0, 1, 2, 3, 2.5, -1, 0.5, 1, 2], ops=["+", "-", "*", "*", "/", "**"],
                       vec_funcs=["sin", "exp", "abs"], matrix_reductions=draw(st.booleans()))
     else:
